@@ -18,6 +18,9 @@ def run(ctx):
         every = lambda label, key: True
         crashlib.run_crash(ctx, ok_drv, "meta", meta, every)
         crashlib.run_crash(ctx, ok_drv, "data", data, every)
+        # crashes while the shrinker frees a large file in several transactions
+        free = ["-disk", "40000", "-ops", "22"] + (["-workloads", "8", "-images", "500"] if ctx.tier == "thorough" else ["-workloads", "2", "-images", "120"])
+        crashlib.run_crash(ctx, ok_drv, "free", free, every)
     vlib.finish(
         ctx, "proof",
         "PARTIAL (the file-system layer above the log is tied by oracle, not by theorem). Lean theorems on the write-ahead-log model M9: for every interleaving of logger and "
@@ -25,7 +28,7 @@ def run(ctx):
         "recovered logical disk is the specification after a prefix of the logged updates that contains every durable group commit (wal_crash_safe, acknowledged_survives, "
         "wal_recover_idempotent, recovered_is_prefix_state); on the in-memory log model (transactions appended whole, absorbed into the unflushed tail, flush points) every header-1 end value is a transaction boundary below which nothing changes any more, so the recovered disk holds ALL transactions before that flush and NONE after it (group_is_txn_prefix, crash_recovers_whole_transactions). Ties: the disk trace RECORDED from real runs is mapped onto the model's steps and every guard checked (driver wal); "
         "crash images built from the same trace are recovered by the REAL server and the whole recovered tree (names, kinds, sizes, content digests, link targets) must equal the "
-        "reference state after k operations, with every stable-acknowledged visible operation among the k; the recovered server must keep serving",
+        "reference state after k operations, with every stable-acknowledged visible operation among the k; the recovered server must keep serving: a 48-block file written after recovery must still read back after every half-freed number has been reused and every file has been touched (which resumes interrupted shrinks)",
         "workloads of all mutating procedures (namespace-heavy and write-stability mixes; all three stability levels; multi-block writes; truncations; removal of 3 MB files freed in the "
         "background) on a recording disk; crash points = every prefix of the event stream plus prefixes with subsets of the un-barriered writes lost (single writes dropped, only one kept, "
         "random subsets); images evenly sampled when the trace offers more than the budget; repeated crashes: the server is restarted on sampled crash images on a recording disk, serves more operations, and is crashed again",
